@@ -426,12 +426,14 @@ for _p, _m in (('C08', 'GeodeVerif.Proofs.C08b'), ('C12', 'GeodeVerif.Proofs.C12
     PROPS[_p]['needs_angles'] = True
     PROPS[_p]['rule'] = ('regenerated: every method of the five angle classes (conversions, operators, comparisons, abs, neg, round, %, '
                          'int, float) is translated from angles.py on every run (translator/angles2lean.py -> GenF/AnglesCls.lean) and '
-                         'proved equal to the hand model for every arithmetic and object (Proofs/C12b.lean, C08b.lean); the module-level '
-                         'leaf conversions and the constructors stay hand-modelled. ' + PROPS[_p]['rule'])
+                         'proved equal to the hand model for every arithmetic and object (Proofs/C12b.lean, C08b.lean); 19 of the 25 module-level '
+                         'functions (compositions, divmod splits, the wrappers) are regenerated and proved equal too; dec2hp, _hp_fields, hp2dec, '
+                         'dec2hp_v, hp2dec_v and the constructors stay hand-modelled. ' + PROPS[_p]['rule'])
     PROPS[_p]['trusted_base'] = ['translator/angles2lean.py and its reading of the methods\' Python (header of the file): int/float '
                                  'mixed arithmetic as ofNat/natDiv, `/` and `%` by a parameter raising ZeroDivisionError at 0, the '
                                  '`except AttributeError/TypeError: raise TypeError` handlers unreachable for typed operands'] + list(PROPS[_p].get('trusted_base', []))
 PROPS['C08']['required_theorems'] += ['gen_object_conversions', 'gen_missing_conversions']
+PROPS['C08']['required_theorems'] += ['gen_leaf_functions', 'gen_leaf_dec2dms', 'gen_leaf_dec2ddm', 'gen_leaf_hp2dms', 'gen_leaf_hp2ddm', 'gen_leaf_dd2sec', 'gen_leaf_dec2gon', 'gen_leaf_gon2dec', 'gen_leaf_hp2gon', 'gen_leaf_gon2hp']
 PROPS['C12']['required_theorems'] += ['gen_dec', 'gen_add', 'gen_radd', 'gen_sub', 'gen_rsub', 'gen_mul', 'gen_rmul', 'gen_truediv', 'gen_abs',
                                       'gen_neg', 'gen_eq', 'gen_ne', 'gen_lt', 'gen_gt', 'gen_round', 'gen_toInt', 'gen_toFloat',
                                       'gen_mod_dms', 'gen_mod_ddm', 'gen_add_sub_dec', 'gen_cmp_dec']
